@@ -84,6 +84,11 @@ int main(int argc, char **argv) {
             if (!stale.empty())
                 vf::violation("C02|" + op_class(opname) + "|handle obtained before the step shows a different entity|" + stale.substr(0, stale.find('|')),
                               "history " + ex::hist_str(E.alpha, p, op), stale + "\nREPLAY " + rargs);
+            // ... and so must one read through the handle that create* returned earlier in this session
+            std::string made = E.creation_handles(post_tree);
+            if (!made.empty())
+                vf::violation("C02|" + op_class(opname) + "|handle returned by create* shows a different entity than a fresh handle|" + made.substr(0, made.find('|')),
+                              "history " + ex::hist_str(E.alpha, p, op), made + "\nREPLAY " + rargs);
             E.prepool.clear();
             vf::set_clock(E.clock0 + 500);
             // entity handles obtained in the writing session stay alive across close and reopen (as in real programs)
